@@ -136,24 +136,31 @@ def cert_pub(cert: dict):
 
 
 def sig_rs(sig):
-    """Signature value -> (r, s) or None. r may be carried as x-only, compressed or uncompressed point."""
+    """Signature value -> (r, s, point_claim) or None.  IEEE 1609.2 clause 6.3.29: rSig is the x coordinate of the ephemeral
+    point R ('x-only') or R itself ('compressed-y-0/1', 'uncompressedP256', for fast verification).  When R is carried as a
+    point the claim about its y coordinate is part of the signature: point_claim is ('ybit', 0|1) or ('y', int)."""
     try:
         if sig[0] != "ecdsaNistP256Signature":
             return None
         rch, rval = sig[1]["rSig"]
-        if rch in ("x-only", "compressed-y-0", "compressed-y-1"):
+        claim = None
+        if rch == "x-only":
             r = int.from_bytes(rval, "big")
+        elif rch in ("compressed-y-0", "compressed-y-1"):
+            r = int.from_bytes(rval, "big")
+            claim = ("ybit", int(rch[-1]))
         elif rch == "uncompressedP256":
             r = int.from_bytes(rval["x"], "big")
+            claim = ("y", int.from_bytes(rval["y"], "big"))
         else:
             return None
-        return r, int.from_bytes(sig[1]["sSig"], "big")
+        return r, int.from_bytes(sig[1]["sSig"], "big"), claim
     except Exception:  # noqa: BLE001
         return None
 
 
-def ecdsa_digest_ok(xy, digest: bytes, r: int, s: int) -> bool:
-    key = (xy, digest, r, s)
+def ecdsa_digest_ok(xy, digest: bytes, r: int, s: int, claim=None) -> bool:
+    key = (xy, digest, r, s, claim)
     hit = _MEMO.get(key)
     if hit is not None:
         STATS["ecdsa_memo_hits"] += 1
@@ -163,7 +170,14 @@ def ecdsa_digest_ok(xy, digest: bytes, r: int, s: int) -> bool:
     try:
         if 1 <= r < N and 1 <= s < N:
             pt = ellipticcurve.Point(CURVE.curve, xy[0], xy[1], N)   # raises if not on the curve
-            ok = bool(Public_key(CURVE.generator, pt, verify=True).verifies(int.from_bytes(digest, "big"), Signature(r, s)))
+            h = int.from_bytes(digest, "big")
+            ok = bool(Public_key(CURVE.generator, pt, verify=True).verifies(h, Signature(r, s)))
+            if ok and claim is not None:
+                # recompute the ephemeral point R = (h/s) G + (r/s) Q and compare the claimed y coordinate
+                c = pow(s, -1, N)
+                g = ellipticcurve.Point(CURVE.curve, CURVE.generator.x(), CURVE.generator.y(), N)
+                big_r = g * ((h * c) % N) + pt * ((r * c) % N)
+                ok = (big_r.x() % N == r) and ((big_r.y() & 1) == claim[1] if claim[0] == "ybit" else big_r.y() == claim[1])
     except Exception:  # noqa: BLE001
         ok = False
     if len(_MEMO) < 400_000:
